@@ -1156,7 +1156,12 @@ def remove_duplicate_functions(source: str, preserve: Collection[str]) -> str:
             node_renamings[node].add(substitute)
 
     if node_renamings:
+        # Renaming moves the text: the functions are looked up again in what it returns
+        function_types = (ast.FunctionDef, ast.AsyncFunctionDef)
+        indices = {i for i, node in enumerate(core.walk(root, function_types)) if node in delete}
         source = _fix_variable_names(source, node_renamings, preserve)
+        root = core.parse(source)
+        delete = {node for i, node in enumerate(core.walk(root, function_types)) if i in indices}
     if delete:
         source = processing.remove_nodes(source, delete, root)
 
